@@ -444,6 +444,8 @@ func (m *Machine) model(fn *ssa.Function, args []Value, res ssa.Value) *modelRes
 	case "verif.local/vrt.Assert":
 		m.doAssert(constStr(args[0]), args[1].(*term.T))
 		return &modelRes{}
+	case "verif.local/vrt.Pace":
+		return &modelRes{}
 	case "verif.local/vrt.Cover":
 		m.doCover(constStr(args[0]))
 		return &modelRes{}
@@ -505,7 +507,7 @@ func (m *Machine) model(fn *ssa.Function, args []Value, res ssa.Value) *modelRes
 	case "verif.local/vrt.Invariant":
 		m.invars = append(m.invars, labeledFn{constStr(args[0]), args[1].(*FuncV)})
 		return &modelRes{}
-	case "verif.local/vrt.LibExited", "verif.local/vrt.Closed", "verif.local/vrt.ChanLen", "verif.local/vrt.Now",
+	case "verif.local/vrt.LibExited", "verif.local/vrt.AllLibExited", "verif.local/vrt.Closed", "verif.local/vrt.ChanLen", "verif.local/vrt.Now",
 		"verif.local/vrt.Exited", "verif.local/vrt.Cancelled", "verif.local/vrt.Daemon", "verif.local/vrt.TrySend",
 		"verif.local/vrt.Sleep", "verif.local/vrt.Arena", "verif.local/vrt.Pending":
 		if m.bmcHooks == nil {
